@@ -98,20 +98,27 @@ def run_seed(sdir, known_oids):
         p = subprocess.run(['patch', '-p1', '-s', '-i', os.path.join(sdir, 'patch.diff')], cwd=wd, stdout=subprocess.PIPE, stderr=subprocess.STDOUT, text=True)
         if p.returncode != 0:
             return {'seed': os.path.basename(sdir), 'status': 'stale', 'detail': p.stdout[-200:]}
-        try:
-            G = driver.assemble(repo=wd)
-        except (AnchorLost, SpecError) as e:
-            return {'seed': os.path.basename(sdir), 'status': 'undecided', 'detail': str(e)[:200], 'expected': meta.get('detected_by')}
-        res = driver.run_verus(G, wd, threads=4)
-        failed, tool, _ = driver.classify(G, res)
-        if tool:
+        # same degradation as the real check: functions whose body leaves the subset are left out (contract kept) and the run repeated
+        skip = set()
+        for attempt in range(3):
+            try:
+                G = driver.assemble(repo=wd, skip=skip)
+            except (AnchorLost, SpecError, rtok_LexError) as e:
+                return {'seed': os.path.basename(sdir), 'status': 'undecided', 'detail': str(e)[:200], 'expected': meta.get('detected_by')}
+            res = driver.run_verus(G, wd, threads=4)
+            failed, tool, _ = driver.classify(G, res)
+            if tool and G.tool_fids and not G.tool_unmapped and not (G.tool_fids <= skip) and attempt < 2:
+                skip |= G.tool_fids
+                continue
+            break
+        if tool and not any(o not in known_oids and G.obligations[o]['kind'] != 'proof-hint' for o in failed):
             return {'seed': os.path.basename(sdir), 'status': 'undecided', 'detail': tool[0][:200], 'expected': meta.get('detected_by')}
         hints = [o for o in failed if o not in known_oids and G.obligations[o]['kind'] == 'proof-hint']
         fo = [o for o in failed if o not in known_oids and G.obligations[o]['kind'] != 'proof-hint']
         props = sorted({t for o in fo for t in G.obligations[o]['tags']})
         hprops = sorted({t for o in hints for t in G.obligations[o]['tags']} - set(props))
-        return {'seed': os.path.basename(sdir), 'status': 'alarm' if fo else ('undecided' if hints else 'silent'), 'props': props, 'undecided_props': hprops,
-                'expected': meta.get('detected_by'), 'target': meta.get('property')}
+        return {'seed': os.path.basename(sdir), 'status': 'alarm' if fo else ('undecided' if (hints or skip) else 'silent'), 'props': props, 'undecided_props': hprops,
+                'left_out': sorted(skip), 'expected': meta.get('detected_by'), 'target': meta.get('property')}
     finally:
         shutil.rmtree(wd, ignore_errors=True)
 
